@@ -501,10 +501,30 @@ func vfClassifyDump(dump string) (string, string) {
 	return "unclassified", ""
 }
 
+// vfFrames splits a goroutine block into (function, file) pairs.
+func vfFrames(b string) [][2]string {
+	lines := strings.Split(b, "\n")
+	var out [][2]string
+	for i := 0; i+1 < len(lines); i++ {
+		if strings.HasPrefix(lines[i+1], "\t") && !strings.HasPrefix(lines[i], "\t") && !strings.HasPrefix(lines[i], "goroutine ") {
+			out = append(out, [2]string{lines[i], strings.TrimSpace(lines[i+1])})
+			i++
+		}
+	}
+
+	return out
+}
+
+// a frame belongs to pion/sctp proper if its function is in the package and its file is not a harness file.
+func vfIsSctpFrame(f [2]string) bool {
+	fn := strings.TrimPrefix(f[0], "created by ")
+
+	return strings.Contains(fn, "pion/sctp.") && !strings.Contains(f[1], "zz_vf_")
+}
+
 func vfHasNonHarnessFrame(b string) bool {
-	for _, ln := range strings.Split(b, "\n") {
-		if strings.Contains(ln, "pion/sctp.") && !strings.Contains(ln, "pion/sctp.vf") &&
-			!strings.Contains(ln, "pion/sctp.(*vf") && !strings.Contains(ln, "pion/sctp.TestVF") {
+	for _, f := range vfFrames(b) {
+		if vfIsSctpFrame(f) && !strings.HasPrefix(f[0], "created by ") {
 			return true
 		}
 	}
@@ -513,9 +533,9 @@ func vfHasNonHarnessFrame(b string) bool {
 }
 
 func vfFirstSctpFrame(b string) string {
-	for _, ln := range strings.Split(b, "\n") {
-		if strings.Contains(ln, "pion/sctp.") && !strings.Contains(ln, "pion/sctp.vf") && !strings.Contains(ln, "pion/sctp.(*vf") {
-			return strings.TrimSpace(ln)
+	for _, f := range vfFrames(b) {
+		if vfIsSctpFrame(f) && !strings.HasPrefix(f[0], "created by ") {
+			return strings.TrimSpace(f[0])
 		}
 	}
 
